@@ -346,6 +346,11 @@ def confirm(ctx, name, label, cex, v, funcs, replay):
                    (res.get('detail', ''), label, cex), cex=cex, solver_s=v.secs, queries=v.queries, functions=funcs))
 
 
+def is_sub_t(t, want):
+    from audit import subterms
+    return any(x == want for x in subterms(t))
+
+
 def codec_and_status(ctx, prog):
     """binding audits: the string form is base64(gzip(all bytes)) and back with nothing dropped or capped in between; the status
     evaluation compares list id *and* purpose before reading the entry"""
@@ -398,6 +403,31 @@ def codec_and_status(ctx, prog):
         if not idx or not any(s_ == idx[0].ret for a in ent[0].args for s_ in subterms(a)) and not isinstance(ent[0].argvals[1], VInt):
             return 'entry read at something other than the status index'
         return None
+    # StatusList2021Credential::update: decode, hand the list (with the credential's purpose) to the caller's function once, and store
+    # the re-encoded list whenever that function succeeded - unconditionally, whatever the function did
+    fu = prog.one(r'status_list_2021::credential::<impl at [^>]*>::update$')
+    upaths, uex = A.paths(fu, inline=r'credential::<impl at [^>]*>::update::\{closure')
+    from execu import VOver
+
+    def r_up(p):
+        if p.kind != 'return':
+            return 'panic ' + p.msg
+        mem = p.st.mem.get('sym:self')
+        written = isinstance(mem, VOver)
+        dl = [c for c in p.calls if re.search(r'StatusList2021Credential::status_list$', c.name)]
+        fc = [c for c in p.calls if re.search(r'FnOnce<.*>>::call_once$', c.name) and mentions(c.args[0], r'^update_fn$')]
+        if not p.is_ok():
+            return 'failed update modified the credential' if written else None
+        if len(dl) != 1 or not p.took(dl[0], 'Ok') or len(fc) != 1 or not p.took(fc[0], 'Ok'):
+            return 'Ok without decoding the list and applying the caller\'s function once successfully'
+        if not is_sub_t(fc[0].args[1], ('field', dl[0].ret, 0, 'Ok')) or not apps(fc[0].args[1], r'StatusList2021Credential::purpose$'):
+            return 'the function is not given the decoded list together with the credential\'s purpose'
+        en = [c for c in p.calls if re.search(r'StatusList2021::into_encoded_str$', c.name)]
+        if not written or len(en) != 1 or not is_sub_t(uex.to_term(p.st, mem), en[0].ret):
+            return 'Ok without storing the re-encoded list (the update is lost)'
+        return None
+    A.require('credential/update-applies-once-and-always-stores', upaths, r_up, replay={'scenario': 'statuslist_oneway'})
+
     A.require('check_status_with_status_list_2021/same-list-and-same-purpose-before-reading-the-entry', paths, r_sl, replay={'scenario': 'statuslist_status'})
 
 
